@@ -21,7 +21,8 @@ ASSUMPTIONS = [
     "only end-of-method trailing whitespace is asserted as never passed",
     "observation through data descriptors installed on openpectus.lang.model.ast classes from the harness",
 ]
-REQUIRED = {"start_events": 200, "order_checks": 100, "ws_checks": 5, "append_checks": 3}
+REQUIRED = {"start_events": 200, "order_checks": 100, "ws_checks": 5, "append_checks": 3,
+            "macro_invocation_first_line_checks": 100, "cut_macro_cases": 60, "cut_macro_calls_cut_by_end_block": 20}
 
 SYNC = {"MarkNode", "BlockNode", "CallMacroNode", "InterpreterCommandNode", "EndBlockNode", "EndBlocksNode",
         "SimulateNode", "SimulateOffNode", "NotifyNode", "BatchNode", "BlankNode", "CommentNode"}
@@ -35,7 +36,39 @@ def plan(tier, seed):
     return [{"seed": seed * 1000003 + i, "n": per, "max_depth": 3 if tier == "quick" else 4} for i in range(shards)]
 
 
+def gen_cut_macro_case(rnd: random.Random):
+    """Directed stratum: a macro call inside a Block is cut short by `End block` (from a Watch at root level, driven by
+    the run counter or by FT01) and the same macro is called again afterwards, sequentially. Every invocation must
+    start its body at the first line."""
+    n = rnd.randint(3, 7)
+    body = [f"Mark: q{i}" for i in range(1, n + 1)]
+    use_counter = rnd.random() < 0.6
+    if use_counter:
+        body.insert(rnd.randint(1, n - 1), "Increment run counter")
+    for _ in range(rnd.randint(0, 2)):
+        body.insert(rnd.randint(1, len(body)), f"Wait: {rnd.choice(['0.2', '0.3', '0.5'])}s")
+    lines = ["Base: s", "Macro: M0"] + ["    " + b for b in body]
+    cond = "Run Counter > 0" if use_counter else f"FT01 > {rnd.randint(1, 4)} L/h"
+    lines += [f"Watch: {cond}", "    End block"]
+    lines += ["Block: bq1", "    Mark: b1"]
+    if rnd.random() < 0.3:
+        lines += ["    Short"]
+    lines += ["    Call macro: M0", "    Mark: b2", "    End block"]
+    lines += ["Mark: c1"]
+    if rnd.random() < 0.3:
+        lines += ["Wait: 0.2s"]
+    lines += ["Call macro: M0", "Mark: c2"]
+    if rnd.random() < 0.4:
+        lines += ["Call macro: M0", "Mark: c3"]
+    text = "\n".join(lines) + "\n"
+    at = rnd.randint(10, 30)
+    traj = [0.0 if i < at else 6.0 for i in range(400)] if not use_counter else [0.0] * 400
+    return {"text": text, "traj": traj, "append": False, "stratum": "cut_macro"}
+
+
 def gen_case(rnd: random.Random, max_depth=3):
+    if rnd.random() < 0.08:
+        return gen_cut_macro_case(rnd)
     g = Gen(rnd, allow=("mark", "uod", "wait", "block", "watch", "alarm", "macro", "thr", "blank", "base", "sim",
                         "counter", "info", "pausehold"),
             max_depth=max_depth, thr_values=("0.2", "0.5", "1", "0", "0.3"))
@@ -69,6 +102,12 @@ def check_case(case, res: Result):
                 break
         trace = list(R.TRACE)
         prog = rig.program()
+        if case.get("stratum") == "cut_macro":
+            res.count("cut_macro_cases")
+            mk = rig.marks()
+            n_body = sum(1 for ln in text.split("\n") if ln.startswith("    Mark: q"))
+            if "c1" in mk and sum(1 for m_ in mk[:mk.index("c1")] if m_.startswith("q")) < n_body:
+                res.count("cut_macro_calls_cut_by_end_block")   # first call abandoned mid-body, method went on
         nodes = {id(n): n for n in prog.get_all_nodes()}
         errored = bool(rig.errors)
         err_tick = rig.errors[0][0] if errored else 10 ** 9
@@ -128,6 +167,7 @@ def check_case(case, res: Result):
         ended_blocks: set[int] = set()
         registered: dict[int, bool] = {}
         lock_ok: dict[int, bool] = {}
+        pending_first: dict[str, tuple] = {}
 
         # ---- single pass over the trace with incrementally maintained node state
         last_started_idx: dict[int, int] = {}
@@ -211,6 +251,7 @@ def check_case(case, res: Result):
                 if isinstance(n, p.CallMacroNode):
                     c = active_calls[n.macro_name] = active_calls.get(n.macro_name, 0) + 1
                     max_active[n.macro_name] = max(max_active.get(n.macro_name, 0), c)
+                    pending_first[n.macro_name] = (nid, tick)   # this invocation has not started a body line yet
                 par = n.parent
                 if par is None:
                     continue
@@ -221,6 +262,18 @@ def check_case(case, res: Result):
                 # rule 3: enclosing scope has started (macro body: a call of that macro is in progress)
                 if isinstance(par, p.MacroNode):
                     res.count("macro_body_starts")
+                    pf = pending_first.pop(par.macro_name, None)
+                    if pf is not None and not isinstance(n, p.WhitespaceNode):
+                        # first body line started by this invocation: each invocation starts its lines from the top
+                        res.count("macro_invocation_first_line_checks")
+                        first_idx = next((i for i, c_ in enumerate(par.children) if not isinstance(c_, p.WhitespaceNode)), 0)
+                        my_idx = list(par.children).index(n)
+                        if my_idx != first_idx:
+                            V("C02.macro_invocation_does_not_start_at_first_line",
+                              f"call {pf[0]} of macro {par.macro_name} (started tick {pf[1]}) started body line #{my_idx} "
+                              f"({nid}) first, at tick {tick}, instead of line #{first_idx}", n)
+                    elif pf is not None:
+                        pending_first[par.macro_name] = pf
                     if active_calls.get(par.macro_name, 0) <= 0:
                         V("C02.macro_body_line_without_call", f"{nid} {cls} started at tick {tick} with no call of "
                           f"macro {par.macro_name} in progress", n)
